@@ -76,6 +76,16 @@ static int rd(void *dst, size_t n) { if (filepos + n > filelen) return 0; memcpy
 static void w32(FILE *f, uint32_t v) { fwrite(&v, 4, 1, f); }
 static void w64(FILE *f, uint64_t v) { fwrite(&v, 8, 1, f); }
 
+/* Uninitialised-memory differential: with VERIF_STACK_FILL=<0..255> the stack region the library calls are about to use is filled
+ * with that byte before every case (and ASan's malloc_fill_byte does the same for fresh heap blocks).  A case whose output differs
+ * between two fill values let an uninitialised byte decide it. */
+static void __attribute__((noinline)) scribble_stack(void)
+{
+	static int fill = -2;
+	if (fill == -2) { const char *e = getenv("VERIF_STACK_FILL"); fill = e ? atoi(e) : -1; }
+	if (fill >= 0) { volatile unsigned char pad[96 * 1024]; size_t i; for (i = 0; i < sizeof pad; ++i) pad[i] = (unsigned char) fill; }
+}
+
 int main(int argc, char **argv)
 {
 	FILE *in, *out; int mfd; unsigned long ncases = 0;
@@ -106,6 +116,7 @@ int main(int argc, char **argv)
 		{ uint8_t *s = malloc(slen ? slen : 1); memcpy(s, filedata + filepos, slen); stream = s; filepos += slen; }
 		{ char mb[16]; int n = snprintf(mb, sizeof mb, "%u\n", id); if (pwrite(mfd, mb, n, 0) < 0) return 2; }
 		arm_watchdog();
+		scribble_stack();
 		src.p = stream; src.len = slen; src.pos = 0; src.chunk = in_chunk; src.calls = 0;
 		ncb = 0; method[7] = 0;
 		dt = lha_decoder_for_name(method);
